@@ -564,6 +564,19 @@ func TestVerifC05Cluster(t *testing.T) {
 		k++
 		c := &clCase{Messages: rapid.IntRange(10, 40).Draw(rt, "messages")}
 		nf := rapid.IntRange(1, 5).Draw(rt, "nfaults")
+		if rapid.IntRange(0, 2).Draw(rt, "twocrashes") == 0 {
+			// one node: snapshot, more traffic, crash, restart, its next snapshot, crash, restart
+			// (what a node goes through over a week: the second start restores a snapshot that was
+			// taken by a process which itself had started from a snapshot)
+			x := rapid.IntRange(0, 2).Draw(rt, "crashnode")
+			gap := rapid.IntRange(200, 900).Draw(rt, "crashgap")
+			c.Faults = []clFault{{Kind: "snapshot", Node: x, AfterMs: gap}, {Kind: "kill", Node: x, AfterMs: gap}, {Kind: "restart", Node: x, AfterMs: 300},
+				{Kind: "snapshot", Node: x, AfterMs: gap + 1500}, {Kind: "kill", Node: x, AfterMs: gap}, {Kind: "restart", Node: x, AfterMs: 300}, {Kind: "wait", AfterMs: 1500}}
+			if c.Messages < 30 {
+				c.Messages = 30
+			}
+			nf = 0
+		}
 		for i := 0; i < nf; i++ {
 			f := clFault{Kind: rapid.SampledFrom([]string{"kill", "kill", "restart", "pause", "snapshot", "killall", "wait"}).Draw(rt, "fault"),
 				Node: rapid.IntRange(0, 2).Draw(rt, "node"), AfterMs: rapid.IntRange(0, 1500).Draw(rt, "afterms")}
